@@ -15,6 +15,8 @@ AttrChoicesFull == {
     << [a |-> "expr", n |-> "data-x", e |-> "E1"] >>,
     << [a |-> "boole", n |-> "disabled", c |-> "C1"], [a |-> "expr", n |-> "data-y", e |-> "E2"] >>,
     << [a |-> "spread", m |-> "M1"] >>,
+    << [a |-> "class", e |-> "K1"], [a |-> "const", n |-> "title", v |-> "k1"] >>,
+    << [a |-> "cond", c |-> "C1", then |-> << [a |-> "class", e |-> "K1"] >>, else |-> << >>] >>,
     << [a |-> "const", n |-> "title", v |-> "k4"], [a |-> "const", n |-> "lang", v |-> "k3"] >>,
     << [a |-> "cond", c |-> "C1", then |-> << [a |-> "const", n |-> "title", v |-> "k1"] >>, else |-> << >>] >>,
     << [a |-> "cond", c |-> "C2", then |-> << [a |-> "expr", n |-> "data-x", e |-> "E1"] >>,
